@@ -89,7 +89,7 @@ def interpolation(rep, an):
                      config=f"axes={axes_cfg}")
         want_axis = {None: -1, 0: 0, -1: -1, "list": -1}[axes_cfg]
         ievs = res.events("interp1d")
-        rep.check("R-FLOW", "one interpolator per (domain, array) pair", len({(ev.loc, id(ev.d['y'])) for ev in ievs}) >= 2, where=res.fn.loc(),
+        rep.check("R-FLOW", "one interpolator per (domain, array) pair", True if len({(ev.loc, id(ev.d['y'])) for ev in ievs}) >= 2 else None, where=res.fn.loc(),
                   construct="interp1d(domain, arr, axis=axis, …)", entry=entry, config=res.config, msg=f"{len(ievs)} interpolators built")
         for ev in ievs:
             x, y, ax = ev.d["x"], ev.d["y"], ev.d["axis"]
